@@ -24,7 +24,7 @@ TIERS = {'quick': {'runs': 3000, 'budget_s': 80}, 'thorough': {'runs': 150000, '
 PROBES = ('own_key_private', 'own_key_protected', 'own_signature', 'own_message', 'own_encrypted', 'relay_accepted', 'relay_rejected',
           'framing_old', 'framing_5octet', 'framing_partial', 'framing_partial_final5', 'framing_indeterminate', 'unknown_tag', 'unknown_version',
           'uid_invalid_utf8', 'filename_non_ascii', 'secret_usage255', 'secret_gnu_dummy', 'secret_gnu_card_stub', 'nested_compressed', 'edit_protect_old_format',
-          'edit_add_uid', 'trust_odd_length', 'uattr_two_subpackets')
+          'edit_add_uid', 'trust_odd_length', 'uattr_two_subpackets', 'uattr_image_header_other_version', 'uattr_image_header_other_length', 'uattr_three_images')
 RELAY_KINDS = ['uid', 'uid', 'literal', 'literal', 'sig', 'sig', 'pubkey', 'pubsub', 'seckey', 'secsub', 'pkesk', 'skesk', 'ops', 'compressed',
                'sed', 'seipd', 'mdc', 'marker', 'trust', 'uattr', 'unknown_tag', 'unknown_version']
 
@@ -199,6 +199,17 @@ def build_foreign(step, ctx, run_seed):
         return 12, rnd(r.choice([1, 3, 5]))
     if kind == 'uattr':
         img = encode_subpacket(1, bytes([16, 0, 1, 1]) + bytes(12) + world.JPEG)
+        q = r.random()
+        if q < 0.15:
+            # an image header of a later version (RFC 4880 5.12.1: the first two octets give the header length)
+            ctx.probe('uattr_image_header_other_version')
+            img = encode_subpacket(1, bytes([16, 0, 2, 1]) + bytes(12) + world.JPEG)
+        elif q < 0.3:
+            ctx.probe('uattr_image_header_other_length')
+            img = encode_subpacket(1, bytes([20, 0, 1, 1]) + bytes(16) + world.JPEG)
+        elif q < 0.4:
+            ctx.probe('uattr_three_images')
+            img = img + img + encode_subpacket(1, bytes([16, 0, 1, 1]) + bytes(12) + world.JPEG[:-1] + b'\x00')
         if r.random() < 0.3:
             ctx.probe('uattr_two_subpackets')
             img += encode_subpacket(r.choice([2, 100]), rnd(9))
